@@ -30,16 +30,20 @@ try:
     b = sh("python3 /verif/tools/baseline.py %s" % wt); res["baseline_ok"] = b.returncode == 0; res["baseline"] = b.stdout.strip()[-200:]
 finally:
   sh("git -C /repo worktree remove --force %s" % wt); shutil.rmtree(wt, ignore_errors=True)
-st = sh("git -C /repo status --short").stdout.strip()
-assert not st, "/repo is not clean: " + st
-a = sh("git -C /repo apply %s" % patch)
+# --scratch <worktree>: development triage against a scratch worktree (VERIF_REPO) instead of /repo itself, so that several
+# seeds can be tried while /repo is busy; the recorded run (meta.json) is always the one against /repo
+target = sys.argv[sys.argv.index("--scratch") + 1] if "--scratch" in sys.argv else "/repo"
+res["target"] = target
+st = sh("git -C %s status --short" % target).stdout.strip()
+assert not st, target + " is not clean: " + st
+a = sh("git -C %s apply %s" % (target, patch))
 try:
   t0 = time.time()
-  c = sh("cd /verif && ./check %s --tier %s" % (pid, tier))
+  c = sh("cd /verif && VERIF_REPO=%s ./check %s --tier %s" % (target, pid, tier))
   res["check_exit"] = c.returncode; res["check_wall"] = round(time.time() - t0)
   lines = [l for l in c.stdout.split("\n") if l.startswith("VIOLATION") or "signature:" in l or l.startswith("HARNESS")]
   res["check_lines"] = lines[:8]
 finally:
-  sh("git -C /repo checkout -- ."); sh("git -C /repo clean -fdq qkeras")
-res["repo_clean"] = not sh("git -C /repo status --short").stdout.strip()
+  sh("git -C %s checkout -- ." % target); sh("git -C %s clean -fdq qkeras" % target)
+res["repo_clean"] = not sh("git -C %s status --short" % target).stdout.strip()
 print(json.dumps(res, indent=1))
